@@ -858,8 +858,13 @@ class C15(KProp):
                     same = py_scrypt(q, s) == py_scrypt(p, s)
                     self.count(ctx, "hmac-equivalent-password:openssl-derives-same-key" if same else "hmac-equivalent-password:UNCONFIRMED")
                     cases.append(KCase("sk_unlock", s=S, pw=q, tags=["hmac-equivalent-password"],
-                                       oracle=(lambda r, k=k, same=same: None if not same or (r["code"] == 0 and r["out"] == k) else
-                                               ("a password that RFC 7914 scrypt maps to the same key unlocks (conforming format)", r["raw"][:200]))))
+                                       oracle=(lambda r, k=k, same=same: (
+                                           # KNOWN FINDING: the property says "with any other password unlocking fails"; a
+                                           # different password with the same RFC 2104 key image unlocks (documented format)
+                                           ("with any other password unlocking fails", "a different password with the same HMAC key image unlocks: "
+                                            + r["raw"][:120], "hmac-key-hashing") if (r["code"] == 0 and r["out"] == k) else
+                                           (None if not same else
+                                            ("a password that RFC 7914 scrypt maps to the same key unlocks (conforming format)", r["raw"][:200]))))))
         # bit flips
         flips = []
         for ti in ([0, 5] if ctx.thorough() else [5]):
